@@ -254,6 +254,9 @@ func validatedDate(v ssa.Value, use ssa.Instruction) bool {
 func runC18(c *Ctx) {
 	gd := c.Godev()
 	r := c.R
+	// the upload object is named <Week>/<X>.json after validate accepted the report: the name
+	// stays inside the bucket because an accepted week is a date (no separators, no "..")
+	c12AcceptHeader(c, gd, gd.Func("cmd/telemetrygodev", "validate"), "C18.names-confined")
 	// ---- names confined ---------------------------------------------------------
 	n := 0
 	for _, fn := range gd.srcFns {
